@@ -9,9 +9,9 @@ import (
 	"sort"
 	"strings"
 
-	"github.com/go-text/typesetting/font"
 	tdh "github.com/go-text/typesetting-utils/harfbuzz"
 	td "github.com/go-text/typesetting-utils/opentype"
+	"github.com/go-text/typesetting/font"
 )
 
 type corpusFile struct {
